@@ -150,6 +150,20 @@ def wfL (cap : Nat) : List Node → Bool
   | n :: ns => wf cap n && wfL cap ns
 end
 
+mutual
+/-- the shapes the front end itself builds: every alternative and every sequence has at least two
+    members (`visitAlternative` / `visitConcatenation` return a single member as it is) -/
+def shaped : Node → Bool
+  | .term _ => true
+  | .nt _ _ _ => true
+  | .alt _ ns => decide (2 ≤ ns.length) && shapedL ns
+  | .cat _ ns => decide (2 ≤ ns.length) && shapedL ns
+  | .rep _ _ n _ _ => shaped n
+def shapedL : List Node → Bool
+  | [] => true
+  | n :: ns => shaped n && shapedL ns
+end
+
 /-! ### what reading back produces: ids erased, singletons collapsed, directly nested sequences spliced -/
 
 /-- `visitAlternative`: a single branch is returned as it is -/
